@@ -44,8 +44,31 @@ def write_and_run(prop, name, o, w):
     return os.path.relpath(path, VERIF), reproduced
 
 
+def write_bounded(prop, rec, w):
+    """A failure of a bounded contract check: the failing input was found by running the real code."""
+    d = os.path.join(VERIF, "replays", prop)
+    os.makedirs(d, exist_ok=True)
+    import hashlib
+    h = hashlib.sha1(json.dumps(rec["input"], default=repr).encode()).hexdigest()[:8]
+    path = os.path.join(d, _safe("bounded-" + rec["case"]) + "-" + h + ".json")
+    out = {"property": prop, "obligation": rec["name"], "bounded": True, "module": rec["module"], "case": rec["case"],
+           "input": rec["input"], "message": rec["message"], "reproduced": True, "src": w.src,
+           "rerun": f"./check {prop} --replay {os.path.relpath(path, VERIF)}"}
+    json.dump(out, open(path, "w"), indent=1, default=repr)
+    return os.path.relpath(path, VERIF)
+
+
 def rerun(path):
     rec = json.load(open(path))
+    if rec.get("bounded"):
+        from pyvc import bounded
+        rc, r = bounded.replay_one(rec, os.environ.get("PYVC_SRC", "/repo/src"))
+        print(f"replay of bounded contract check {rec['obligation']} on input {json.dumps(rec['input'])[:300]}")
+        print("result:", r)
+        if rc == 1:
+            print(f"VIOLATION property={rec['property']} replay={path}")
+            return 1
+        return 0 if rc == 0 else 3
     print(f"replay of {rec['obligation']} (solver said {rec['solver']['verdict']})")
     print("model:", json.dumps(rec.get("model"), default=str)[:2000])
     if rec.get("function_qualname") and rec.get("model") is not None:
